@@ -32,6 +32,7 @@ def jobs(tier, seed):
     for sh in shapes.bf3_shapes(tier, seed):
         for keymode in ("sym", "default"):
             J.append(dict(name="bin:%s:%s" % (shapes.shape_name(sh), keymode), kind="bin", shape=sh, keymode=keymode, timeout=600, cost=sum(c["plen"] for c in sh) + 50 * len(sh)))
+    J.append(dict(name="bin:many-components:300", kind="many", n=300, timeout=3000, cost=2000))
     J.append(dict(name="bin:twin-reachability", kind="bin", shape=[shapes.comp(17, [(0xC1, 1)])], keymode="sym", twin=True, expect="violated", timeout=300))
     for lemma in ("T1-lines", "T2-alphabet", "T3-oddfix", "T4-comment", "T5-io-literals"):
         J.append(dict(name="text:" + lemma, kind="text", lemma=lemma, timeout=600, cost=500))
@@ -61,6 +62,46 @@ def run_job(job):
     stubs.install_text_bypass()
     from bec2format import bf3file as bf
     from bec2format.bytes_reader import BytesReader
+
+    if job["kind"] == "many":
+        # directory with more than 255 entries (entry index beyond one byte); MAC values are irrelevant
+        # here, a constant-output cipher registered through the library's registry keeps it fast
+        from bec2format import crypto
+
+        class Const(crypto.AES128):
+            def encrypt(self, d):
+                return bytes(-(-len(d) // 16) * 16)
+
+            def decrypt(self, d):
+                return d
+
+            def mac(self, d):
+                return bytes(15) + bytes([len(d) % 251])
+
+        crypto.register_AES128(Const)
+        n = job["n"]
+
+        def hm():
+            pays = [sym.sym_bytes("p%d_" % i, 1) for i in range(n)]
+            f = bf.Bf3File({}, [bf.Bf3Component({}, p) for p in pays])
+            carrier = stubs.Carrier()
+            runner.track(dict(first=pays[0], last=pays[-1]))
+            f.write_file(carrier, bytes(16))
+            ok = True
+            for chk in (True, False):
+                g = bf.Bf3File.read_file(carrier, chk, bytes(16))
+                ok = ok and len(g.components) == n
+                for i in (0, 1, 254, 255, 256, n - 1):
+                    ok = ok and g.components[i].blob == pays[i]
+            if not ok:
+                runner.record_witness(first=pays[0], last=pays[-1])
+            return ok
+
+        res = runner.run(hm, job["timeout"] - 60, job["timeout"] - 60)
+        res["symbolic_dims"] = n
+        if res["verdict"] == "violated":
+            res["signature"] = "C01:many-components"
+        return res
 
     shape, keymode, twin = job["shape"], job["keymode"], job.get("twin")
 
@@ -126,6 +167,18 @@ def replay(job):
         return c01_text.replay(job)
     if job.get("twin"):
         return dict(reproduced=True, signature="twin")
+    if job.get("kind") == "many":
+        n = job["n"]
+        f = bf.Bf3File({}, [bf.Bf3Component({}, bytes([i % 256])) for i in range(n)])
+        s = io.StringIO()
+        try:
+            f.write_file(s, bytes(16))
+            s.seek(0)
+            g = bf.Bf3File.read_file(s, True, bytes(16))
+            bad = [i for i in range(n) if g.components[i].blob != bytes([i % 256])][:3] if len(g.components) == n else ["count %d" % len(g.components)]
+        except Exception as e:
+            return dict(reproduced=True, signature="C01:many-components", detail="file with %d components: %s: %s" % (n, type(e).__name__, e))
+        return dict(reproduced=bool(bad), signature="C01:many-components", detail="file with %d components differs at %s" % (n, bad))
     vals = _unhex(job.get("witness"))
     if not vals:
         return dict(reproduced=False, detail="no witness recorded")
